@@ -33,7 +33,7 @@ OPTS = ["results", "data", "config", "conformalization"]
 
 
 def budget(tier):
-    return dict(nights=80, wall_s=170) if tier == "quick" else dict(nights=1500, wall_s=1700)
+    return dict(nights=160, wall_s=240) if tier == "quick" else dict(nights=1500, wall_s=1700)
 
 
 WORLD = dict(offices=["G", "S", "H"], unit_types=["precinct", "county"], n_states=(1, 2), n_counties=(3, 6), n_units=(3, 7), zero_baseline_frac=0.02)
